@@ -434,6 +434,7 @@ _HANG_CASE = {"spec": {"name_kind": "str", "shape": "chain", "nodes": ["A", "B"]
                        "cpds": [{"var": "A", "parents": [], "table": [[0.5], [0.5]]}, {"var": "B", "parents": ["A"], "table": [[0.3, 0.6], [0.7, 0.4], [0.0, 0.0]]}]},
               "do": [["B", 2]]}
 
+THOROUGH_SCALE = 2  # thorough-tier example counts are n["thorough"] x this (one thorough run then takes roughly 5-10 minutes on 16 cores)
 SUBCHECKS = [
     Sub("do_zero_probability_state", check_known_hang, strategy=lambda tier: st.just(_HANG_CASE), n={"quick": 1, "thorough": 1}, shards={"quick": 1, "thorough": 1},
         doc="regression probe of a repaired defect: simulate(do=...) to a state that the node CPD gives probability 0 used not to terminate"),
